@@ -15,6 +15,14 @@ CHECKS = {
             "Generated commit/merge/delete histories and query trees; every query is evaluated through ten access paths on the real index and compared, in both directions, with a reference evaluator over the document model and with each other. Sampling of an unbounded space: small corpora (<=60 docs), depth<=4 trees.",
             "Trusts wv/refquery.py as the documented meaning; FuzzyTerm checked as an interval (variant of edit distance decided in C19); Regex = re.match.",
             "DESIGN.md section 2 C01"),
+    "C07": ("exploration",
+            "model-based property testing (Hypothesis-generated operation histories vs a dictionary model, invariant checked after every transaction)",
+            "Generated writer histories (add / update by one or two unique fields / delete by term, query, docnum / commit with every merge mode / cancel) are "
+            "applied to a real index and to a dict model; after each transaction every read API (counts, stored-field iteration, Every/Not/Term searches in four "
+            "modes, raw postings, grouping, column sort, vectors, delete return values) must agree with the model, cancel must leave the logical dump unchanged, and a "
+            "re-opened index must agree as well.",
+            "Key discipline of the statement enforced by construction; delete queries exclude FuzzyTerm; add_field/remove_field not exercised in this check (C06 covers removed fields).",
+            "DESIGN.md section 2 C07"),
     "C15": ("exploration",
             "property-based testing (Hypothesis): metamorphic relation docs(r(q)) == docs(q) over generated query trees and indexes",
             "Generated query trees over all public query types (incl. spans, Sequence, NullQuery, empty compounds, overlapping ranges) are rewritten by "
